@@ -2,6 +2,10 @@ use crossbeam_channel::{self, Sender, Receiver, select};
 
 use std::time::{Instant, Duration};
 use std::collections::{BTreeMap};
+use std::sync::{
+    Arc,
+    atomic::{AtomicUsize, Ordering},
+};
 
 /// As a shortcut, it returns the sender and receiver queue as a tuple.
 ///
@@ -23,8 +27,11 @@ pub fn split<E: Send + 'static>() -> (EventSender<E>, EventReceiver<E>) {
 
 /// An ID that represents a timer scheduled.
 /// It can be used to cancel the event.
-#[derive(Clone, Copy, Debug, PartialEq, Eq, Hash)]
-pub struct TimerId(Instant);
+/// It wraps the instant at which the timer expires and a sequence number that makes it unique,
+/// so two timers that fall on the same instant are different timers
+/// (ordered by the order in which they were scheduled).
+#[derive(Clone, Copy, Debug, PartialEq, Eq, Hash, PartialOrd, Ord)]
+pub struct TimerId(Instant, usize);
 
 // Internal enum to enqueue different timer commands in a single queue
 enum TimerCommand<E> {
@@ -39,9 +46,9 @@ enum TimerCommand<E> {
 pub struct EventReceiver<E> {
     event_sender: EventSender<E>, // Should be before receiver in order to drop first.
     receiver: Receiver<E>,
-    timer_receiver: Receiver<(Instant, TimerCommand<E>)>,
+    timer_receiver: Receiver<(TimerId, TimerCommand<E>)>,
     priority_receiver: Receiver<E>,
-    timers: BTreeMap<Instant, E>,
+    timers: BTreeMap<TimerId, E>,
 }
 
 impl<E> Default for EventReceiver<E>
@@ -53,7 +60,12 @@ where E: Send + 'static
         let (timer_sender, timer_receiver) = crossbeam_channel::unbounded();
         let (priority_sender, priority_receiver) = crossbeam_channel::unbounded();
         EventReceiver {
-            event_sender: EventSender::new(sender, timer_sender, priority_sender),
+            event_sender: EventSender::new(
+                sender,
+                timer_sender,
+                priority_sender,
+                Arc::new(AtomicUsize::new(0)),
+            ),
             receiver,
             timer_receiver,
             priority_receiver,
@@ -97,16 +109,16 @@ where E: Send + 'static
             }
         }
         else {
-            let next_instant = *self.timers.iter().next().unwrap().0;
-            if next_instant <= Instant::now() {
-                self.timers.remove(&next_instant).unwrap()
+            let next_timer = *self.timers.iter().next().unwrap().0;
+            if next_timer.0 <= Instant::now() {
+                self.timers.remove(&next_timer).unwrap()
             }
             else {
                 select! {
                     recv(self.receiver) -> event => event.unwrap(),
                     recv(self.priority_receiver) -> event => event.unwrap(),
-                    recv(crossbeam_channel::at(next_instant)) -> _ => {
-                        self.timers.remove(&next_instant).unwrap()
+                    recv(crossbeam_channel::at(next_timer.0)) -> _ => {
+                        self.timers.remove(&next_timer).unwrap()
                     }
                 }
             }
@@ -129,16 +141,16 @@ where E: Send + 'static
             }
         }
         else {
-            let next_instant = *self.timers.iter().next().unwrap().0;
-            if next_instant <= Instant::now() {
-                self.timers.remove(&next_instant)
+            let next_timer = *self.timers.iter().next().unwrap().0;
+            if next_timer.0 <= Instant::now() {
+                self.timers.remove(&next_timer)
             }
             else {
                 select! {
                     recv(self.receiver) -> event => Some(event.unwrap()),
                     recv(self.priority_receiver) -> event => Some(event.unwrap()),
-                    recv(crossbeam_channel::at(next_instant)) -> _ => {
-                        self.timers.remove(&next_instant)
+                    recv(crossbeam_channel::at(next_timer.0)) -> _ => {
+                        self.timers.remove(&next_timer)
                     }
                     default(timeout) => None
                 }
@@ -155,10 +167,10 @@ where E: Send + 'static
             return Some(priority_event);
         }
 
-        if let Some(next_instant) = self.timers.iter().next() {
-            if *next_instant.0 <= Instant::now() {
-                let instant = *next_instant.0;
-                return self.timers.remove(&instant);
+        if let Some(next_timer) = self.timers.iter().next() {
+            if (next_timer.0).0 <= Instant::now() {
+                let timer_id = *next_timer.0;
+                return self.timers.remove(&timer_id);
             }
         }
 
@@ -171,8 +183,9 @@ where E: Send + 'static
 /// This type can only be generated by the receiver `EventReceiver`.
 pub struct EventSender<E> {
     sender: Sender<E>,
-    timer_sender: Sender<(Instant, TimerCommand<E>)>,
+    timer_sender: Sender<(TimerId, TimerCommand<E>)>,
     priority_sender: Sender<E>,
+    timer_sequence: Arc<AtomicUsize>, // shared by all the senders of the same queue
 }
 
 impl<E> EventSender<E>
@@ -180,10 +193,11 @@ where E: Send + 'static
 {
     fn new(
         sender: Sender<E>,
-        timer_sender: Sender<(Instant, TimerCommand<E>)>,
+        timer_sender: Sender<(TimerId, TimerCommand<E>)>,
         priority_sender: Sender<E>,
+        timer_sequence: Arc<AtomicUsize>,
     ) -> EventSender<E> {
-        EventSender { sender, timer_sender, priority_sender }
+        EventSender { sender, timer_sender, priority_sender, timer_sequence }
     }
 
     /// Send instantly an event to the event queue.
@@ -204,14 +218,15 @@ where E: Send + 'static
     /// [`EventSender::cancel_timer()`] be called.
     pub fn send_with_timer(&self, event: E, duration: Duration) -> TimerId {
         let when = Instant::now() + duration;
-        self.timer_sender.send((when, TimerCommand::Create(event))).ok();
-        TimerId(when)
+        let timer_id = TimerId(when, self.timer_sequence.fetch_add(1, Ordering::Relaxed));
+        self.timer_sender.send((timer_id, TimerCommand::Create(event))).ok();
+        timer_id
     }
 
     /// Remove a timer previously sent by [`EventSender::send_with_timer()`].
     /// The timer will not be receive by the [`EventReceiver`].
     pub fn cancel_timer(&self, timer_id: TimerId) {
-        self.timer_sender.send((timer_id.0, TimerCommand::Cancel)).ok();
+        self.timer_sender.send((timer_id, TimerCommand::Cancel)).ok();
     }
 }
 
@@ -223,6 +238,7 @@ where E: Send + 'static
             self.sender.clone(),
             self.timer_sender.clone(),
             self.priority_sender.clone(),
+            self.timer_sequence.clone(),
         )
     }
 }
